@@ -1,6 +1,7 @@
 package hx
 
 import (
+	"encoding/json"
 	"time"
 
 	"github.com/dunglas/mercure"
@@ -60,4 +61,38 @@ func BoltIDs(path string) ([]string, error) {
 		})
 	})
 	return ids, err
+}
+
+// StoredUpdate is what the history file holds for one update.
+type StoredUpdate struct {
+	ID   string
+	Data string
+}
+
+// BoltUpdates reads a (closed) history file directly with bbolt, in key order.
+func BoltUpdates(path string) ([]StoredUpdate, error) {
+	db, err := bolt.Open(path, 0o600, &bolt.Options{ReadOnly: true, Timeout: time.Second})
+	if err != nil {
+		return nil, err
+	}
+	defer db.Close()
+	var us []StoredUpdate
+	err = db.View(func(tx *bolt.Tx) error {
+		b := tx.Bucket([]byte("updates"))
+		if b == nil {
+			return nil
+		}
+		return b.ForEach(func(k, v []byte) error {
+			var u struct {
+				ID   string
+				Data string
+			}
+			if err := json.Unmarshal(v, &u); err != nil {
+				return err
+			}
+			us = append(us, StoredUpdate{ID: u.ID, Data: u.Data})
+			return nil
+		})
+	})
+	return us, err
 }
